@@ -73,7 +73,15 @@ pub enum Error {
     },
     #[error("parsing failed: '{0}'")]
     Parse(String),
+    #[error("Nesting deeper than {0} levels")]
+    NestingTooDeep(usize),
 }
+
+/// The deepest nesting of dictionaries and arrays we are willing to parse.
+///
+/// Real sources nest about a dozen levels; the limit only exists so that the
+/// recursive parser reports an error instead of overflowing the stack.
+const MAX_NESTING_DEPTH: usize = 256;
 
 #[derive(Debug, PartialEq)]
 pub(crate) enum Token<'a> {
@@ -176,7 +184,7 @@ fn escape_string(buf: &mut String, s: &str) {
 
 impl Plist {
     pub fn parse(s: &str) -> Result<Plist, Error> {
-        let (plist, _ix) = Plist::parse_rec(s, 0)?;
+        let (plist, _ix) = Plist::parse_rec(s, 0, 0)?;
         // TODO: check that we're actually at eof
         Ok(plist)
     }
@@ -277,7 +285,10 @@ impl Plist {
         }
     }
 
-    fn parse_rec(s: &str, ix: usize) -> Result<(Plist, usize), Error> {
+    fn parse_rec(s: &str, ix: usize, depth: usize) -> Result<(Plist, usize), Error> {
+        if depth > MAX_NESTING_DEPTH {
+            return Err(Error::NestingTooDeep(MAX_NESTING_DEPTH));
+        }
         let (tok, mut ix) = Token::lex(s, ix)?;
         match tok {
             Token::Atom(s) => Ok((Plist::parse_atom(s), ix)),
@@ -295,7 +306,7 @@ impl Plist {
                     if next.is_none() {
                         return Err(Error::ExpectedEquals);
                     }
-                    let (val, next) = Self::parse_rec(s, next.unwrap())?;
+                    let (val, next) = Self::parse_rec(s, next.unwrap(), depth + 1)?;
                     dict.insert(key_str, val);
                     if let Some(next) = Token::expect(s, next, b';') {
                         ix = next;
@@ -310,7 +321,7 @@ impl Plist {
                     if let Some(ix) = Token::expect(s, ix, b')') {
                         return Ok((Plist::Array(list), ix));
                     }
-                    let (val, next) = Self::parse_rec(s, ix)?;
+                    let (val, next) = Self::parse_rec(s, ix, depth + 1)?;
                     list.push(val);
                     if let Some(ix) = Token::expect(s, next, b')') {
                         return Ok((Plist::Array(list), ix));
@@ -395,7 +406,7 @@ impl Plist {
 impl FromPlist for Plist {
     fn parse(tokenizer: &mut Tokenizer) -> Result<Self, Error> {
         let Tokenizer { content, idx } = tokenizer;
-        let (val, end_idx) = Self::parse_rec(content, *idx)?;
+        let (val, end_idx) = Self::parse_rec(content, *idx, 0)?;
         *idx = end_idx;
         Ok(val)
     }
@@ -756,6 +767,13 @@ impl<'a> Tokenizer<'a> {
     ///
     /// Named to match parse_rec.
     pub(crate) fn skip_rec(&mut self) -> Result<(), Error> {
+        self.skip_rec_at_depth(0)
+    }
+
+    fn skip_rec_at_depth(&mut self, depth: usize) -> Result<(), Error> {
+        if depth > MAX_NESTING_DEPTH {
+            return Err(Error::NestingTooDeep(MAX_NESTING_DEPTH));
+        }
         match self.lex()? {
             Token::Atom(..) | Token::String(..) | Token::Data(..) => Ok(()),
             Token::OpenBrace => loop {
@@ -765,7 +783,7 @@ impl<'a> Tokenizer<'a> {
                 let key = self.lex()?;
                 Token::try_into_smolstr(key)?;
                 self.eat(b'=')?;
-                self.skip_rec()?;
+                self.skip_rec_at_depth(depth + 1)?;
                 self.eat(b';')?;
             },
             Token::OpenParen => {
@@ -773,7 +791,7 @@ impl<'a> Tokenizer<'a> {
                     return Ok(());
                 }
                 loop {
-                    self.skip_rec()?;
+                    self.skip_rec_at_depth(depth + 1)?;
                     if self.eat(b')').is_ok() {
                         return Ok(());
                     }
@@ -950,6 +968,28 @@ mod tests {
     use std::collections::BTreeMap;
 
     use super::*;
+
+    #[test]
+    fn deep_nesting_is_an_error_not_a_stack_overflow() {
+        for (open, close) in [("(", ")"), ("{a = ", ";}")] {
+            let ok = format!("{}1{}", open.repeat(100), close.repeat(100));
+            assert!(Plist::parse(&ok).is_ok(), "{open}");
+            let deep = format!("{}1{}", open.repeat(20_000), close.repeat(20_000));
+            assert_eq!(
+                Plist::parse(&deep),
+                Err(Error::NestingTooDeep(MAX_NESTING_DEPTH)),
+                "{open}"
+            );
+            // unterminated, and on the path that skips unknown values
+            let deep = open.repeat(20_000);
+            let mut tokenizer = Tokenizer::new(&deep);
+            assert_eq!(
+                tokenizer.skip_rec(),
+                Err(Error::NestingTooDeep(MAX_NESTING_DEPTH)),
+                "{open}"
+            );
+        }
+    }
 
     #[test]
     fn parse_unquoted_strings() {
